@@ -137,7 +137,7 @@ func registerGhostBuiltins() {
 		if !ok {
 			e.fail("telem needs an element type name")
 		}
-		et := e.x.prog.typeByName(ts.V)
+		et := e.x.typeByName(ts.V)
 		if et == nil {
 			e.fail("telem: unknown type %q", ts.V)
 		}
@@ -153,7 +153,7 @@ func registerGhostBuiltins() {
 		if !ok {
 			e.fail("tdata needs an element type name")
 		}
-		et := e.x.prog.typeByName(ts.V)
+		et := e.x.typeByName(ts.V)
 		if et == nil {
 			e.fail("tdata: unknown type %q", ts.V)
 		}
